@@ -1,3 +1,587 @@
 package main
 
-func checkMain(args []string) int { return 2 }
+import (
+	"encoding/json"
+	"flag"
+	"fmt"
+	"os"
+	"path/filepath"
+	"regexp"
+	"sort"
+	"strconv"
+	"strings"
+	"time"
+)
+
+func verifDir() string {
+	if d := os.Getenv("VERIF_DIR"); d != "" {
+		return d
+	}
+	return "/verif"
+}
+
+// PropSpec: /verif/props/Cxx.spec
+type PropSpec struct {
+	ID         string
+	Fns        []string // functions under contract
+	Safety     []string // functions in zero-annotation safety mode
+	Lemmas     []LemmaSpec
+	Census     []CensusSpec
+	Assume     []string
+	NotDecided []string
+	Bounded    []string
+	Wasm       bool // load the 08-wasm module instead
+	Expect     []string
+}
+
+type LemmaSpec struct {
+	Name string
+	Pkg  string
+	Src  string
+}
+
+type CensusSpec struct {
+	Name string
+	Kind string // "callers", "keywriters", "impl"
+	Args []string
+}
+
+func parsePropSpec(path string) (*PropSpec, error) {
+	bz, err := os.ReadFile(path)
+	if err != nil {
+		return nil, err
+	}
+	ps := &PropSpec{}
+	var curLemma *LemmaSpec
+	flush := func() {
+		if curLemma != nil {
+			ps.Lemmas = append(ps.Lemmas, *curLemma)
+			curLemma = nil
+		}
+	}
+	for _, raw := range strings.Split(string(bz), "\n") {
+		line := strings.TrimSpace(raw)
+		if line == "" || strings.HasPrefix(line, "#") {
+			continue
+		}
+		fs := strings.Fields(line)
+		indented := strings.HasPrefix(raw, " ") || strings.HasPrefix(raw, "\t")
+		if indented && curLemma != nil {
+			curLemma.Src += " " + line
+			continue
+		}
+		switch fs[0] {
+		case "property":
+			flush()
+			ps.ID = fs[1]
+		case "fn":
+			flush()
+			ps.Fns = append(ps.Fns, fs[1])
+		case "safety":
+			flush()
+			ps.Safety = append(ps.Safety, fs[1])
+		case "wasm":
+			flush()
+			ps.Wasm = true
+		case "lemma":
+			flush()
+			curLemma = &LemmaSpec{Name: fs[1]}
+			if len(fs) > 3 && fs[2] == "pkg" {
+				curLemma.Pkg = fs[3]
+			}
+		case "census":
+			flush()
+			ps.Census = append(ps.Census, CensusSpec{Name: fs[1], Kind: fs[2], Args: fs[3:]})
+		case "assume":
+			flush()
+			ps.Assume = append(ps.Assume, strings.TrimSpace(strings.TrimPrefix(line, "assume")))
+		case "not_decided":
+			flush()
+			ps.NotDecided = append(ps.NotDecided, strings.TrimSpace(strings.TrimPrefix(line, "not_decided")))
+		case "bounded":
+			flush()
+			ps.Bounded = append(ps.Bounded, strings.TrimSpace(strings.TrimPrefix(line, "bounded")))
+		case "expect":
+			flush()
+			ps.Expect = append(ps.Expect, fs[1:]...)
+		default:
+			return nil, fmt.Errorf("%s: unknown directive %q", path, fs[0])
+		}
+	}
+	flush()
+	if ps.ID == "" {
+		return nil, fmt.Errorf("%s: no property id", path)
+	}
+	return ps, nil
+}
+
+// Known findings
+type Finding struct {
+	Property   string `json:"property"`
+	Status     string `json:"status"` // "open" or "fixed"
+	Obligation string `json:"obligation"`
+	What       string `json:"what"`
+	Restrict   string `json:"restrict,omitempty"` // contract-language formula over the function's parameters excluding the failing class
+	Commit     string `json:"commit,omitempty"`
+}
+
+func loadFindings() []Finding {
+	var fs []Finding
+	bz, err := os.ReadFile(filepath.Join(verifDir(), "known_findings.json"))
+	if err != nil {
+		return nil
+	}
+	if err := json.Unmarshal(bz, &fs); err != nil {
+		fmt.Fprintln(os.Stderr, "known_findings.json:", err)
+	}
+	return fs
+}
+
+type oblReport struct {
+	Name   string `json:"name"`
+	Kind   string `json:"kind"`
+	Status string `json:"status"`
+	Solver string `json:"solver,omitempty"`
+	Ms     int64  `json:"ms"`
+	Bytes  int    `json:"smt_bytes"`
+	Src    string `json:"clause,omitempty"`
+}
+
+func checkMain(args []string) int {
+	fs := flag.NewFlagSet("check", flag.ExitOnError)
+	tier := fs.String("tier", "", "quick|thorough")
+	mutant := fs.String("mutant", "", "apply a .mut file through the loader overlay (self-test)")
+	quiet := fs.Bool("q", false, "quiet")
+	jsonOut := fs.String("json", "", "write machine-readable result here (self-test)")
+	fs.Parse(args)
+	if fs.NArg() < 1 {
+		fmt.Println("usage: govc check [--tier t] Cxx")
+		return 2
+	}
+	id := fs.Arg(0)
+	if *tier == "" {
+		*tier = os.Getenv("VERIF_TIER")
+	}
+	if *tier == "" {
+		*tier = "quick"
+	}
+	seed, _ := strconv.Atoi(os.Getenv("VERIF_SEED"))
+	t0 := time.Now()
+	ps, err := parsePropSpec(filepath.Join(verifDir(), "props", id+".spec"))
+	if err != nil {
+		fmt.Println("spec error:", err)
+		return 2
+	}
+	var overlay map[string][]byte
+	if *mutant != "" {
+		overlay, err = loadMutant(*mutant)
+		if err != nil {
+			fmt.Println("mutant error:", err)
+			return 2
+		}
+	}
+	dir := repoDir()
+	patterns := []string{"./modules/..."}
+	if ps.Wasm {
+		dir = filepath.Join(repoDir(), "modules/light-clients/08-wasm")
+		patterns = []string{"./..."}
+	}
+	w, err := LoadWorld(dir, patterns, overlay)
+	evidencePath := filepath.Join(verifDir(), "evidence", id+".json")
+	writeEvidence := *mutant == ""
+	if err != nil {
+		// the tree does not load (compile error): every obligation is undecided -> report as violation of the load obligation
+		fmt.Println("load failed:", err)
+		rp := writeReplay(id, "load", "the repository does not load/type-check with -tags verif", err.Error(), "")
+		fmt.Printf("VIOLATION property=%s replay=%s no-failing-input-found\n", id, rp)
+		if writeEvidence {
+			writeEvidenceFile(evidencePath, id, *tier, seed, nil, 1, 0, nil, nil, time.Since(t0).Seconds(), 1, map[string]any{"load_error": err.Error()})
+		}
+		return 1
+	}
+	w.ParseContracts(nil)
+	timeout := 20
+	if *tier == "thorough" {
+		timeout = 120
+	}
+	findings := loadFindings()
+	restrict := map[string]string{}
+	for _, f := range findings {
+		if f.Property == id && f.Status == "open" && f.Restrict != "" {
+			restrict[f.Obligation] = f.Restrict
+		}
+	}
+
+	var obls []*Obl
+	var fnResults []*FnResult
+	for _, e := range w.Contracts.Errors {
+		obls = append(obls, &Obl{Name: "contracts#parse." + sanitize(e), Kind: "body", Script: "(assert true)\n(check-sat)\n", Expect: "unsat", Src: e})
+	}
+	for _, q := range ps.Fns {
+		fn, err := w.FindFunc(q)
+		if err != nil {
+			obls = append(obls, &Obl{Name: q + "#exists", Kind: "body", Script: "(assert true)\n(check-sat)\n", Expect: "unsat", Src: err.Error(), Fn: q})
+			continue
+		}
+		c := w.Contracts.ByTarget[QualName(fn)]
+		if c == nil {
+			obls = append(obls, &Obl{Name: q + "#contract", Kind: "body", Script: "(assert true)\n(check-sat)\n", Expect: "unsat", Src: "no contract found for " + q, Fn: q})
+			continue
+		}
+		r := VerifyFuncR(w, fn, c, "contract", restrict)
+		fnResults = append(fnResults, r)
+		obls = append(obls, r.Obls...)
+	}
+	for _, q := range ps.Safety {
+		fn, err := w.FindFunc(q)
+		if err != nil {
+			obls = append(obls, &Obl{Name: q + "#exists", Kind: "safety", Script: "(assert true)\n(check-sat)\n", Expect: "unsat", Src: err.Error(), Fn: q})
+			continue
+		}
+		r := VerifyFuncR(w, fn, w.Contracts.ByTarget[QualName(fn)], "safety", restrict)
+		fnResults = append(fnResults, r)
+		obls = append(obls, r.Obls...)
+	}
+	for _, l := range ps.Lemmas {
+		o, lr := LemmaObl(w, id, l)
+		obls = append(obls, o...)
+		if lr != nil {
+			fnResults = append(fnResults, lr)
+		}
+	}
+	for _, c := range ps.Census {
+		obls = append(obls, CensusObl(w, id, c)...)
+	}
+	// expected (named) obligations must have been generated
+	have := map[string]bool{}
+	for _, o := range obls {
+		have[o.Name] = true
+	}
+	for _, e := range ps.Expect {
+		found := false
+		for n := range have {
+			if strings.HasSuffix(n, e) || n == e {
+				found = true
+			}
+		}
+		if !found {
+			obls = append(obls, &Obl{Name: "expect#" + e, Kind: "vacuity", Script: "(assert true)\n(check-sat)\n", Expect: "unsat", Src: "named obligation " + e + " was not generated on this run"})
+		}
+	}
+	if len(obls) == 0 {
+		obls = append(obls, &Obl{Name: id + "#nonempty", Kind: "vacuity", Script: "(assert true)\n(check-sat)\n", Expect: "unsat", Src: "no obligations generated"})
+	}
+	res := SolveAll(obls, timeout, 8)
+
+	// evaluate
+	var reports []oblReport
+	nObl, nDis, nViol := 0, 0, 0
+	var samples []any
+	failed := []string{}
+	solverMs := int64(0)
+	bySolver := map[string]int{}
+	for _, o := range obls {
+		r := res[o.Name]
+		solverMs += r.Ms
+		reports = append(reports, oblReport{o.Name, o.Kind, r.Status, r.Solver, r.Ms, r.Bytes, o.Src})
+		if strings.HasSuffix(o.Name, "@restricted") {
+			continue
+		}
+		if o.Expect == "sat" {
+			// cover / vacuity: must be satisfiable; "unknown" is tolerated for covers (not a proof obligation)
+			if r.Status == "unsat" {
+				nViol++
+				failed = append(failed, o.Name)
+				rp := writeReplay(id, o.Name, o.Src, "vacuity: expected satisfiable, solver says unsat", "")
+				fmt.Printf("VIOLATION property=%s replay=%s no-failing-input-found\n", id, rp)
+			}
+			continue
+		}
+		nObl++
+		if r.Status == "unsat" {
+			nDis++
+			bySolver[r.Solver]++
+			if len(samples) < 3 {
+				samples = append(samples, map[string]any{"obligation": o.Name, "clause": o.Src, "solver": r.Solver, "ms": r.Ms, "smt_bytes": r.Bytes})
+			}
+			continue
+		}
+		// failed obligation: known finding?
+		handled := false
+		for _, f := range findings {
+			if f.Property == id && f.Status == "open" && f.Obligation == o.Name {
+				rr, ok := res[o.Name+"@restricted"]
+				if f.Restrict == "" || (ok && rr.Status == "unsat") {
+					fmt.Printf("KNOWN-FINDING: property=%s %s [%s]\n", id, f.What, o.Name)
+					handled = true
+					nObl-- // recorded finding: not counted as an obligation of the proof
+				}
+			}
+		}
+		if handled {
+			continue
+		}
+		nViol++
+		failed = append(failed, o.Name)
+		replayed := ""
+		if r.Status == "sat" && r.Model != "" && *mutant == "" || r.Status == "sat" && r.Model != "" && os.Getenv("VERIF_REPLAY_MUTANTS") != "" {
+			replayed = tryReplay(w, o, r)
+		}
+		detail := r.Detail
+		if r.Status == "sat" {
+			detail = "solver " + r.Solver + " found a counterexample:\n" + r.Model
+		}
+		rp := writeReplay(id, o.Name, o.Src, detail, replayed)
+		if replayed == "reproduced" {
+			fmt.Printf("VIOLATION property=%s replay=%s\n", id, rp)
+		} else {
+			fmt.Printf("VIOLATION property=%s replay=%s no-failing-input-found\n", id, rp)
+		}
+		if !*quiet {
+			fmt.Printf("  failed obligation %s (%s): %s\n", o.Name, r.Status, trunc(o.Src, 160))
+		}
+	}
+	wall := time.Since(t0).Seconds()
+	// evidence
+	var fuc []string
+	opaque, inlined, dropped, trusted, notes := map[string]bool{}, map[string]bool{}, map[string]bool{}, map[string]bool{}, map[string]bool{}
+	for _, r := range fnResults {
+		fuc = append(fuc, r.Fn)
+		for _, x := range r.Opaque {
+			opaque[x] = true
+		}
+		for _, x := range r.Inlined {
+			inlined[x] = true
+		}
+		for _, x := range r.Dropped {
+			dropped[x] = true
+		}
+		for _, x := range r.Trusted {
+			trusted[x] = true
+		}
+		for _, x := range r.Notes {
+			notes[x] = true
+		}
+	}
+	extra := map[string]any{
+		"functions_under_contract": fuc,
+		"per_obligation":           reports,
+		"inlined":                  keys(inlined),
+		"opaque_calls":             keys(opaque),
+		"dropped":                  keys(dropped),
+		"engine_notes":             keys(notes),
+		"not_decided":              ps.NotDecided,
+		"bounded":                  ps.Bounded,
+		"solver_ms_total":          solverMs,
+		"discharged_by":            bySolver,
+		"load_s":                   w.LoadS,
+		"contract_files":           relFiles(w.Contracts.Files),
+		"failed":                   failed,
+	}
+	assumptions := append([]string{}, ps.Assume...)
+	assumptions = append(assumptions, keys(trusted)...)
+	assumptions = append(assumptions,
+		"T-engine: govc SSA->SMT translation, go/ssa, go/types and the SMT solvers are trusted",
+		"machine integers are modelled with explicit wrap-around (never as mathematical integers); strings/bytes are SMT strings",
+		"opaque calls (listed under opaque_calls) havoc only worlds/objects reachable through their Ctx/KVStore/pointer arguments (A-ctx)",
+		"panics abort the transaction and leave no state (A-abort): postconditions are required on normal returns only")
+	if writeEvidence {
+		writeEvidenceFile(evidencePath, id, *tier, seed, samples, nObl, nDis, []string{"T-engine", "T-prelude", "T-crypto", "A-ctx", "A-abort", "A-pure", "A-store"}, assumptions, wall, nViol, extra)
+	}
+	if *jsonOut != "" {
+		bz, _ := json.MarshalIndent(map[string]any{"failed": failed, "obligations": nObl, "discharged": nDis}, "", " ")
+		os.WriteFile(*jsonOut, bz, 0o644)
+	}
+	if !*quiet {
+		fmt.Printf("%s: %d obligations, %d discharged, %d violations, %.1fs (load %.1fs, solver %dms)\n", id, nObl, nDis, nViol, wall, w.LoadS, solverMs)
+	}
+	os.RemoveAll(workDir())
+	if nViol > 0 {
+		return 1
+	}
+	return 0
+}
+
+func relFiles(fs []string) []string {
+	var out []string
+	for _, f := range fs {
+		out = append(out, strings.TrimPrefix(f, repoDir()+"/"))
+	}
+	return out
+}
+
+func writeEvidenceFile(path, id, tier string, seed int, samples []any, nObl, nDis int, tb, assumptions []string, wall float64, viol int, extra map[string]any) {
+	os.MkdirAll(filepath.Dir(path), 0o755)
+	if samples == nil {
+		samples = []any{}
+	}
+	cov := map[string]any{
+		"obligations":  nObl,
+		"discharged":   nDis,
+		"checker_cmd":  "./check " + id + " --tier " + tier + "  (govc: go/ssa VC generation; z3 4.8.12 / z3 5.1.0 / cvc5 1.0 raced per obligation)",
+		"trusted_base": tb,
+		"samples":      samples,
+	}
+	for k, v := range extra {
+		cov[k] = v
+	}
+	ev := map[string]any{
+		"property_id": id,
+		"tier":        tier,
+		"seed":        seed,
+		"level":       "proof",
+		"coverage":    cov,
+		"assumptions": assumptions,
+		"wall_s":      wall,
+		"violations":  viol,
+	}
+	bz, _ := json.MarshalIndent(ev, "", " ")
+	os.WriteFile(path, bz, 0o644)
+}
+
+func writeReplay(id, obl, clause, detail, replayed string) string {
+	dir := filepath.Join(verifDir(), "replays", id)
+	os.MkdirAll(dir, 0o755)
+	name := sanitize(obl)
+	if len(name) > 150 {
+		name = name[len(name)-150:]
+	}
+	p := filepath.Join(dir, name+".json")
+	bz, _ := json.MarshalIndent(map[string]any{
+		"property":       id,
+		"obligation":     obl,
+		"clause":         clause,
+		"solver_output":  detail,
+		"replay_outcome": replayed,
+	}, "", " ")
+	os.WriteFile(p, bz, 0o644)
+	return p
+}
+
+// loadMutant parses a .mut file: header lines "file: <path relative to /repo>" followed by
+// blocks "<<<<\nold\n====\nnew\n>>>>". Several file: sections are allowed.
+func loadMutant(path string) (map[string][]byte, error) {
+	bz, err := os.ReadFile(path)
+	if err != nil {
+		return nil, err
+	}
+	out := map[string][]byte{}
+	var cur string
+	lines := strings.Split(string(bz), "\n")
+	for i := 0; i < len(lines); i++ {
+		l := lines[i]
+		switch {
+		case strings.HasPrefix(l, "file:"):
+			cur = filepath.Join(repoDir(), strings.TrimSpace(l[5:]))
+			if _, ok := out[cur]; !ok {
+				src, err := os.ReadFile(cur)
+				if err != nil {
+					return nil, err
+				}
+				out[cur] = src
+			}
+		case strings.HasPrefix(l, "<<<<"):
+			var old, nw []string
+			j := i + 1
+			for ; j < len(lines) && !strings.HasPrefix(lines[j], "===="); j++ {
+				old = append(old, lines[j])
+			}
+			j++
+			for ; j < len(lines) && !strings.HasPrefix(lines[j], ">>>>"); j++ {
+				nw = append(nw, lines[j])
+			}
+			i = j
+			o, n := strings.Join(old, "\n"), strings.Join(nw, "\n")
+			src := string(out[cur])
+			if strings.Count(src, o) != 1 {
+				return nil, fmt.Errorf("%s: old text occurs %d times in %s", path, strings.Count(src, o), cur)
+			}
+			out[cur] = []byte(strings.Replace(src, o, n, 1))
+		}
+	}
+	if len(out) == 0 {
+		return nil, fmt.Errorf("%s: no replacement", path)
+	}
+	return out, nil
+}
+
+var expectRe = regexp.MustCompile(`(?m)^#\s*expect:?\s*(.+)$`)
+
+// selftestMain runs every mutant of the given properties: each .mut must make (one of) the named obligation(s)
+// fail, each .ok must leave the property verified.
+func selftestMain(args []string) int {
+	ids := args
+	if len(ids) == 0 {
+		ents, _ := os.ReadDir(filepath.Join(verifDir(), "selftest"))
+		for _, e := range ents {
+			if e.IsDir() {
+				ids = append(ids, e.Name())
+			}
+		}
+	}
+	sort.Strings(ids)
+	bad := 0
+	self, _ := os.Executable()
+	for _, id := range ids {
+		files, _ := filepath.Glob(filepath.Join(verifDir(), "selftest", id, "*"))
+		sort.Strings(files)
+		for _, f := range files {
+			if !strings.HasSuffix(f, ".mut") && !strings.HasSuffix(f, ".ok") {
+				continue
+			}
+			bz, _ := os.ReadFile(f)
+			var expects []string
+			if m := expectRe.FindStringSubmatch(string(bz)); m != nil {
+				expects = strings.Fields(m[1])
+			}
+			tmp := filepath.Join(os.TempDir(), fmt.Sprintf("govc-st-%d.json", os.Getpid()))
+			out, _ := runCmd(self, "check", "-q", "--mutant", f, "--json", tmp, id)
+			var r struct {
+				Failed []string `json:"failed"`
+			}
+			jb, _ := os.ReadFile(tmp)
+			json.Unmarshal(jb, &r)
+			os.Remove(tmp)
+			okMut := false
+			if strings.HasSuffix(f, ".ok") {
+				okMut = len(r.Failed) == 0 && !strings.Contains(out, "VIOLATION")
+			} else {
+				for _, fl := range r.Failed {
+					if len(expects) == 0 {
+						okMut = true
+					}
+					for _, e := range expects {
+						if strings.Contains(fl, e) {
+							okMut = true
+						}
+					}
+				}
+				if !okMut && len(r.Failed) == 0 && strings.Contains(out, "VIOLATION") && len(expects) == 0 {
+					okMut = true
+				}
+			}
+			status := "ok  "
+			if !okMut {
+				status = "BAD "
+				bad++
+			}
+			fmt.Printf("%s %s/%s failed=%v\n", status, id, filepath.Base(f), shortNames(r.Failed))
+		}
+	}
+	if bad > 0 {
+		fmt.Printf("selftest: %d mutants not handled as expected\n", bad)
+		return 1
+	}
+	return 0
+}
+
+func shortNames(xs []string) []string {
+	var out []string
+	for _, x := range xs {
+		if i := strings.LastIndex(x, "/"); i >= 0 {
+			x = x[i+1:]
+		}
+		out = append(out, x)
+	}
+	return out
+}
